@@ -1,4 +1,4 @@
-CONSTANTS Writers = {"w1", "w2", "w3"} WithShut = FALSE
+CONSTANTS Writers = {"A", "B", "C"} WithShut = FALSE StaleRead = FALSE
 SPECIFICATION Spec
 INVARIANTS InvSchedule InvMutex
 CHECK_DEADLOCK FALSE
